@@ -343,9 +343,10 @@ def get_pool_executor(mode: ModeSolver, n_workers: int = None) -> parallel.Execu
     :return: the executor
     :rtype: parallel.Executor
     """
-    return (
-        parallel.ThreadPoolExecutor(n_workers) if mode == ModeSolver.THREAD else parallel.ProcessPoolExecutor(n_workers)
-    )
+    if mode == ModeSolver.THREAD:
+        return parallel.ThreadPoolExecutor(n_workers)
+    # forked workers inherit the parent's random state: reseed each of them, or they all draw the same stream
+    return parallel.ProcessPoolExecutor(n_workers, initializer=np.random.seed)
 
 
 def get_pool_results(executors: list[parallel.Future]) -> list:
